@@ -1,0 +1,13 @@
+//go:build verif
+
+package wallet
+
+// VerifKeyStoreFromEntropy exposes keyStoreFromEntropy (mnemonic, seed and base address of an entropy).
+func VerifKeyStoreFromEntropy(entropy []byte) (*KeyStore, error) {
+	return keyStoreFromEntropy(entropy)
+}
+
+// VerifIsValidPath exposes isValidPath.
+func VerifIsValidPath(path string) bool {
+	return isValidPath(path)
+}
